@@ -46,6 +46,49 @@ P2_EXCEPTIONS = {
 }
 
 
+def _reaching_statements(m, fn: ast.FunctionDef) -> list:
+    """the function itself plus the module-level statements that define (transitively) the module-level names it reads"""
+    top = {}
+    for st in m.tree.body:
+        if isinstance(st, (ast.Assign, ast.AnnAssign)):
+            for t in (st.targets if isinstance(st, ast.Assign) else [st.target]):
+                for x in ast.walk(t):
+                    if isinstance(x, ast.Name):
+                        top.setdefault(x.id, []).append(st)
+    out, seen, work = [fn], set(), [fn]
+    while work:
+        cur = work.pop()
+        for x in ast.walk(cur):
+            if isinstance(x, ast.Name) and isinstance(x.ctx, ast.Load) and x.id in top and x.id not in seen:
+                seen.add(x.id)
+                for st in top[x.id]:
+                    out.append(st)
+                    work.append(st)
+    return out
+
+
+def _p9_probability(run: Run, w) -> None:
+    from ..flow import Fn, node_calls
+    f = Fn(w, "symplyphysics.core.symbols.probability", "Probability.__new__")
+    run.ob("P9", "Probability.__new__")
+    rets = [r for r in f.cfg.returns() if r.ast.value is not None]
+    ok = bool(rets)
+    for r in rets:
+        v = r.ast.value
+        if not (isinstance(v, ast.Call) and dotted(v.func) in ("float.__new__", "super().__new__") and len(v.args) == 2):
+            ok = False
+            continue
+        sl = f.slice(r, v.args[1])
+        stores = [n for n in f.cfg.stmt_nodes() if isinstance(n.ast, (ast.Assign, ast.AugAssign)) and any(isinstance(t, ast.Name) and t.id in sl.params | {"value"}
+                                                                                                             for t in (n.ast.targets if isinstance(n.ast, ast.Assign) else [n.ast.target]))]
+        if sl.params != {f.params[1]} or stores or sl.calls:
+            ok = False
+    if not ok:
+        run.violate("P9", "symplyphysics.core.symbols.probability:Probability.__new__", f.mod, f.fn,
+                    "Probability(value) does not return exactly the float it was given: values are snapped/clamped, so a calculate_* function wrapping its result in Probability "
+                    "returns a number that is not the law's solution")
+
+
 def _law_sets(m, env) -> tuple[set, set]:
     """(strict, related): names of module-level values that are / derive from a published relation or law function;
     `related` additionally holds names that a module-level assert ties to one."""
@@ -94,7 +137,10 @@ def check(run: Run) -> None:
     run.rule("P2", "no arithmetic between the law-derived value and `return` (only value-preserving operations, abs, ceiling)")
     run.rule("P3", "a guarded parameter is substituted for a symbol of the guard's dimension")
     run.rule("P4", "the symbol solved for has the dimension declared by validate_output")
+    run.rule("P8", "no assumption-forcing rewrite (force=True, posify, refine) of a value that reaches a calculate_* result, inside the function or at module level")
+    run.rule("P9", "the Probability wrapper returns the float it was given (or refuses): no snapping of values")
     w = World(run.src)
+    _p9_probability(run, w)
     ncalc = 0
     for m in run.src.catalogue():
         env = w.env(m.name)
@@ -116,6 +162,17 @@ def check(run: Run) -> None:
                 return bool((sl.free | sl.calls) & names) or any(a.split(".")[-1] in ("law", "definition", "condition") or a.split(".")[-1].endswith("_law")
                                                                  for a in sl.attrs)
 
+            # ---- P8: forced-assumption rewrites anywhere on the way to the result (module-level definitions included)
+            run.ob("P8", g.qual)
+            for stmt in _reaching_statements(m, g.fn):
+                for x in ast.walk(stmt):
+                    if isinstance(x, ast.Call):
+                        cn = (dotted(x.func) or (x.func.attr if isinstance(x.func, ast.Attribute) else "")).split(".")[-1]
+                        forced = any(k.arg == "force" and isinstance(k.value, ast.Constant) and k.value.value is True for k in x.keywords)
+                        if forced or cn in ("posify", ) or (cn == "refine" and len(x.args) >= 2):
+                            run.violate("P8", f"{g.qual}:{cn}:{norm(x, 60)}", m, x,
+                                        f"`{norm(x, 70)}` rewrites a value that {g.fn.name} returns under the assumption that its symbols are positive (sqrt(x**2) -> x): for "
+                                        f"arguments where that does not hold the result is not a solution of the law")
             # ---- P1
             run.ob("P1", g.qual)
             p1 = False
@@ -159,7 +216,11 @@ def check(run: Run) -> None:
                                 continue
                             run.ob("P2", None)
                             base = name.split(".")[-1]
-                            if base in ARITHMETIC_CALLS and not is_method:
+                            if base in ("min", "max") and not is_method and len(x.args) >= 2:
+                                run.violate("P2", f"{g.qual}:{norm(x, 120)}", m, x,
+                                            f"`{norm(x, 60)}` clamps a value derived from the law before it is returned: outside the clamp's range the result is no longer "
+                                            f"the law's solution")
+                            elif base in ARITHMETIC_CALLS and not is_method:
                                 run.violate("P2", f"{g.qual}:{norm(x, 120)}", m, x,
                                             f"`{base}(...)` is applied to a value derived from the law before it is returned")
                             elif (is_method and base in VALUE_PRESERVING_METHODS) or (not is_method and base in VALUE_PRESERVING_CALLS) \
